@@ -31,8 +31,11 @@ case: {quirks: "fixed"|"pinned", keep_lb, mkeys: [key of epoch 0..], okeys: [..]
 reply: {sessions: [..], final: ..} — see `sessionJ`. A state is [w, t, lr], an optimizer file
 ["optim", t, lr] (`Opt`: per-parameter state id + learning-rate id; 0 = the initial rate).
 
-Glue only: the model functions (`planUpdate`, `exec`, `startSession`, `recorded`, `loadState`) and
-the spec's `recOk` / `exactLBOk` do the work. -/
+Glue only: the model functions (`planUpdate`, `updateOrders`, `crashMatch`, `crashDisk`, `fullMatch`,
+`unwindOk`, `exec`, `startSession`, `recorded`, `loadState`) and the spec's `recOk` / `exactLBOk` do the work.
+The one piece of logic here is the FALLBACK for an observation the model does not admit (`trace_ok = false`,
+always reported as a disagreement by the harness): the model's own order cut after `n_ops` effective calls,
+so that the sessions that follow can still be compared. -/
 open Lean Proto PdtVerif.Checkpoint
 
 /-- the harness's training: (w, t) ↦ (3w + e, 5t + e), learning rate left to the controller -/
